@@ -303,7 +303,11 @@ func VerifC10() {
 		}
 	case 4: // mkdir: same file-system state
 		exts := []string{verifStr("ext")}
+		notarget := verifFlag("notarget") // the target directory itself is still to be made (both modes make it)
 		vfsReset()
+		if notarget {
+			vfsRemoveTarget()
+		}
 		vfsSeal()
 		e1 = MkdirFromMarkdown(&verifReader{lines: doc.rows}, WithTargetDir(vfsTarget()), WithFileExtensions(exts))
 		c1 := vfsCount()
@@ -312,6 +316,9 @@ func VerifC10() {
 			k1[i] = vfsKind(nodeRel(nodes, i))
 		}
 		vfsReset()
+		if notarget {
+			vfsRemoveTarget()
+		}
 		vfsSeal()
 		e2 = MkdirFromMarkdown(&verifReader{lines: doc.rows}, WithTargetDir(vfsTarget()), WithFileExtensions(exts), WithMassive(ctx))
 		if e1 == nil && e2 == nil {
